@@ -293,6 +293,7 @@ class C02(PropertyCheck):
         "QipVerif.C02.unconstrained_run_mem_branches",
         "QipVerif.C02.stat_eq_branches",
         "QipVerif.C02.cbits_reported",
+        "QipVerif.C02.dm_eq_mixture_partial",
         "QipVerif.C02.C02_counterexample_ccv_out_of_range",
         "QipVerif.C02.C02_counterexample_cbits_alias",
         "QipVerif.C02.C02_counterexample_dm_feedforward",
@@ -300,8 +301,26 @@ class C02(PropertyCheck):
     technique = ("Lean 4 proof over an executable model of the simulator's control state machine (abstract quantum "
                  "backend, classical bits in an explicit heap) + model/implementation correspondence on an exact "
                  "integer-amplitude stream + independent dense branch simulation as oracle")
-    level_text = ""
-    level_note = ""
+    level_text = ("Lean 4 theorems over an executable model of CircuitSimulator's control state machine (abstract quantum "
+                  "backend; classical bits in an explicit heap so that aliasing is representable), for every circuit, record, "
+                  "initial bits and state: the condition test is the integer comparison with the first listed bit most "
+                  "significant (all k, all bit vectors); a run with prescribed outcomes, and an unconstrained run whose draws "
+                  "are r, return the branch of r; run_statistics returns, in product order, exactly the surviving branches, "
+                  "each with a list of its own holding the record's writes applied to the initial bits; the probabilities of "
+                  "all records and of the surviving ones sum to one given only that a measurement splits the weight, which is "
+                  "proved for projectors on C-vectors of any register size (born_split); density-matrix mode equals the "
+                  "probability-weighted mixture for circuits without feed-forward (partial, hypothesis explicit). The model "
+                  "is tied to the code on every run by a correspondence on an exact integer-amplitude stream (records, bits, "
+                  "list identities, executed operations compared exactly; probabilities exactly on the 0/1 stream, 1e-9 "
+                  "otherwise), exhaustive over the condition table for 3 bits and over all initial bit vectors x all 2^m "
+                  "records of each sampled circuit.")
+    level_note = ("Trusted: Lean kernel (propext, Classical.choice, Quot.sound); Model/Sim.lean as a description of the code "
+                  "(validated by the correspondence, not proved); qutip.measurement_statistics as projector/Born "
+                  "probability/normalised collapse (validated on the exact stream and by the independent dense oracle); "
+                  "tolerance pruning modelled as probability = 0. Partial: density-matrix mixture only without feed-forward "
+                  "(with feed-forward the code is wrong: known finding, counter-example theorem). Theorems about "
+                  "caller-supplied cbits and out-of-range condition values describe the repaired code (fixes C02-1, C02-2); "
+                  "the unrepaired behaviour is refuted by kernel-checked counter-examples replayed on the implementation.")
     trusted_base = [
         "Lean 4.33 kernel; axioms propext, Classical.choice, Quot.sound",
         "Model/Sim.lean as a description of CircuitSimulator.initialize/step/run/run_statistics/_apply_measurement and "
@@ -393,7 +412,7 @@ class C02(PropertyCheck):
                          "0..2^(k+1)-1 x every bit vector: firing decision of the real step() against checkCCV")
 
         # 2. random circuits x ALL initial bit vectors (caller-supplied) + default x ALL 2^m records
-        ncirc = 150 if ctx.thorough else 36
+        ncirc = 600 if ctx.thorough else 36
         maxm = 5
         cases = []
         for it in range(ncirc):
@@ -418,7 +437,7 @@ class C02(PropertyCheck):
 
         # 3. histories on a shared simulator: initialize/step by hand, several states and lists
         cases = []
-        for it in range(400 if ctx.thorough else 80):
+        for it in range(3000 if ctx.thorough else 80):
             n = rng.randint(1, 3)
             ncb = rng.randint(0, 3)
             ops = S.rand_circuit(rng, n, ncb, rng.randint(1, 6), 3)
@@ -459,7 +478,7 @@ class C02(PropertyCheck):
         # 4. malformed: wrong-length / empty / non-binary caller lists, indices out of range or negative,
         #    negative control values, short or non-binary measure_results, invalid targets
         cases = []
-        for it in range(1500 if ctx.thorough else 300):
+        for it in range(6000 if ctx.thorough else 300):
             n = rng.randint(1, 2)
             ncb = rng.randint(0, 3)
             ops = S.rand_circuit(rng, n, max(ncb, 1), rng.randint(1, 5), 3)
@@ -550,7 +569,7 @@ class C02(PropertyCheck):
         return self._sweep(ctx, budget_s)
 
     def oracle_always(self, ctx):
-        return self._sweep(ctx, 20, count=400 if ctx.thorough else 120)
+        return self._sweep(ctx, 240 if ctx.thorough else 20, count=6000 if ctx.thorough else 120)
 
     def finding_matches(self, witness, finding):
         return json.dumps(witness, sort_keys=True) == json.dumps(finding.get("witness"), sort_keys=True)
